@@ -32,6 +32,9 @@ def queries(ctx, n, malformed=0.1):
 
 
 def run(ctx):
+    from . import c04
+    held = c04.suspended_generators(common.impl())      # (see there: seeded C01-H)
+    ctx.count("generators of the library left suspended during the run", len(held))
     qs = queries(ctx, ctx.budget(1500, 40000))
     for q, r, t in parsing.compare_parses(ctx, qs):
         ok = "ok" in r
